@@ -55,8 +55,13 @@ PROPS["C04"] = {
             "Initialized runs) executed on the real engine; per incarnation the receiver trace must match "
             "Initialized (Started msg*)? Stopped? with nothing after Stopped, agree with the reference model on which incarnations "
             "exist / were started / ended, deliver spawn-time sends after Started, and have handled Started when Spawn returns.  "
-            "Non-trivial = history has >=1 stop request and >=1 crash, or a send issued before Started was handled.  Distinct = canonical JSON.",
-    "technique": "model-based property testing (rapid) of generated single-actor histories against a reference lifecycle model; vsched leg for Spawn||Send||Stop interleavings",
+            "Non-trivial = history has >=1 stop request and >=1 crash, or a send issued before Started was handled.  Distinct = canonical JSON.  "
+            "Schedule-owning legs (package actor rewritten, one managed thread at a time): 1..3 sender threads issue up to 7 sends / panicking sends / Stop / Poison against one actor "
+            "(MaxRestarts 0..3, inbox 1..4) under a generated schedule - uniform choices, or a priority schedule with up to 4 priority change points (PCT) - and, for 6 two-sender configurations, "
+            "under EVERY schedule with <= 1 preemption (quick; plus the first 15 000 with <= 2) or <= 2 preemptions (thorough, 60 000..190 000 schedules each, complete).  At quiescence (no runnable "
+            "thread - a fact, not a timeout): every incarnation's log is Initialized, Started, messages, at most one Stopped and nothing behind it; a replaced incarnation was told Stopped; with a stop "
+            "request issued the actor is unregistered and its last incarnation ended with Stopped.",
+    "technique": "model-based property testing (rapid) of generated single-actor histories against a reference lifecycle model; schedule-owning legs (vsched: uniform and priority (PCT) schedules, preemption-bounded enumeration) for Send||Stop||Poison||crash interleavings",
     "level_text": "Generated-history search against an exact reference model of the lifecycle; schedules of the inbox hand-off are explored by the vsched leg. Sampling, not proof.",
     "level_note": "trusts internal/life/sim.go as the reading of the property; single-driver histories (concurrency of senders is covered by the vsched leg and C01/C07 legs)",
     "assumptions": LIFE_ASSUME,
@@ -107,8 +112,10 @@ PROPS["C07"] = {
             "its drain clause is not judged (what it queued behind is decided by the request that did stop the actor).  "
             "Concurrent leg: 2..6 callers (Stop/Poison/PoisonCtx) released by a barrier against one actor, next to senders, a backlog behind a gate, a crash with budget 0 and a Stopped "
             "handler of generated duration; for every context: done within 5 s of the actor being observed stopped and unregistered, at Done the Stopped handler has finished and the id is "
-            "unregistered, the probe sent afterwards dead-letters exactly once; Stopped handled exactly once; non-trivial = >=2 callers plus senders, backlog, crash or a slow Stopped handler.",
-    "technique": "model-based property testing (rapid) with context watchers and dead-letter probes; plus generated concurrent stop-request races on real goroutines",
+            "unregistered, the probe sent afterwards dead-letters exactly once; Stopped handled exactly once; non-trivial = >=2 callers plus senders, backlog, crash or a slow Stopped handler.  "
+            "Schedule-owning legs (same runs as C04's): whenever a context is observed done (after every call, at every Receive entry and exit, at quiescence) the actor's Stopped handler has returned and "
+            "the id is unregistered; at quiescence EVERY context is done - the liveness clause decided exactly, for generated schedules and for all schedules with a bounded number of preemptions.",
+    "technique": "model-based property testing (rapid) with context watchers and dead-letter probes; generated concurrent stop-request races on real goroutines; schedule-owning legs (vsched: uniform + PCT schedules, preemption-bounded enumeration) that decide 'every context is eventually done' at quiescence",
     "level_text": "Generated-history search against an exact model of drain/stop semantics; 'every caller is signalled' is checked for every request, whichever of them stops the actor.",
     "level_note": "trusts internal/life/sim.go; 'eventually done' is decided only once the actor is known to be stopped (5 s grace after ActorStoppedEvent was observed)",
     "assumptions": LIFE_ASSUME + ["concurrent leg: the interleaving of the callers with the clean-up is sampled by the Go runtime (generated spin counts only bias it)"],
@@ -299,7 +306,8 @@ PROPS["C08"] = {
 }
 
 SCHED_ASSUME = [
-    "package actor is compiled from a copy rewritten at check time from /repo/actor/*.go (imports of sync/atomic and the ring buffer redirected to yielding shims, `go` statements of inbox.go turned into managed threads); "
+    "package actor is compiled from a copy rewritten at check time from /repo/actor/*.go (imports of sync/atomic and the ring buffer redirected to yielding shims, `go` statements of inbox.go turned into managed threads, "
+    "a scheduling point at the entry of every Registry method, of process.Send/Invoke/Start/tryRestart/cleanup and of Engine.send/SendLocal/sendPoisonPill); "
     "only one managed thread runs at a time, so every execution is a sequentially consistent interleaving at the granularity of the inbox's atomic operations and ring-buffer calls",
     "Go-memory-model reorderings below that granularity are not explored",
 ]
@@ -329,7 +337,9 @@ PROPS["C03"] = {
     "rule": "the harness owns the scheduler (vsched): 1..3 sender threads pushing 1..3 messages each into a real Inbox of initial size 1..4 while another thread calls Start (or after Start has returned), under a generated "
             "schedule (<= 200 choices) or every schedule with <= 2 (thorough: 3) preemptions of 6 fixed configurations.  'No runnable thread' is a fact under this scheduler, not a timeout: at that "
             "point every accepted message must have been invoked.  Non-trivial = a sender completed a push after a worker's empty PopN and before that worker's running->idle CAS executed "
-            "(the lost-wake-up window), or completed a push before Start published 'idle'.  Distinct = configuration + consumed schedule.",
+            "(the lost-wake-up window), or completed a push before Start published 'idle'.  Distinct = configuration + consumed schedule.  "
+            "Engine leg: the real Engine under generated schedules (uniform or priority/PCT) with 1..3 sender threads, panicking sends and restarts inside the budget: with no stop request, at quiescence "
+            "the actor is registered and every message sent was handled exactly once.",
     "technique": "schedule-owning property testing: liveness decided as safety at quiescence under a cooperative scheduler injected at build time; random schedules (rapid) + preemption-bounded enumeration",
     "level_text": "Generated-schedule search plus complete enumeration of all schedules with a bounded number of preemptions for small configurations; quiescence is exact because the harness owns every thread.",
     "level_note": "sequentially consistent interleavings of the rewritten code only; trusts the rewriter and vsched",
